@@ -1,6 +1,8 @@
 // Engine `mt`: C19 — no hidden shared state across threads (TSan + sequential-equivalence digests), ThreadLocal is
 // private per thread and per (T, Slot). Built with -fsanitize=thread.
 #define VF_RT_MAIN
+#include <csignal>
+#include <sys/mman.h>
 #ifndef VF_OPS_FEW
 #define VF_OPS_FEW
 #endif
@@ -78,6 +80,8 @@ template <typename TL> static void tl_u64(int round, int tid, int k, Rng& r, boo
   TL b{v2}; boundary(tid, r, yields);
   if (b.Get() != v1 || &b.Get() != &a.Get()) { if (rp->err.empty()) rp->err = fmt("second-initialisation-overrides|slot %d: the first initialisation in a thread must win until Clear", k); return; }
   a.Initialize(v2); if (a.Get() != v1) { if (rp->err.empty()) rp->err = fmt("second-initialisation-overrides|slot %d: Initialize() replaced an initialised value", k); return; }
+  { a.Initialize(uint64_t(v2 + 1)); uint64_t tmp = v2 + 2; b.Initialize(std::move(tmp)); const uint64_t cv = v2 + 3; a.Initialize(cv);      // temporaries, moved-from and const values of exactly T
+    if (a.Get() != v1) { if (rp->err.empty()) rp->err = fmt("second-initialisation-overrides|slot %d: Initialize(T&&) / Initialize(const T&) replaced an initialised value without Clear()", k); return; } }
   a.Get() = v2; boundary(tid, r, yields); if (b.Get() != v2) { if (rp->err.empty()) rp->err = fmt("write-not-visible-in-same-thread|slot %d", k); return; }
   b.Clear(); a.Initialize(v3); boundary(tid, r, yields); if (a.Get() != v3 || b.Get() != v3) { if (rp->err.empty()) rp->err = fmt("value-survives-clear|slot %d: after Clear + Initialize the slot holds %" PRIx64 ", expected %" PRIx64, k, (uint64_t)a.Get(), v3); return; }
   rp->addr[k] = &a.Get();
@@ -108,6 +112,7 @@ static void tl_work(int round, int tid, Rng& r, bool yields, TlReport* rp) {
   tl_u64<TL0>(round, tid, 0, r, yields, rp); tl_u64<TL1>(round, tid, 1, r, yields, rp); tl_u64<TL2>(round, tid, 2, r, yields, rp);
   std::string s1 = fmt("r%d-t%d-s3", round, tid), s2 = fmt("r%d-t%d-s4", round, tid);
   { TL3 a{s1}; TL4 b{s2}; boundary(tid, r, yields); if (a.Get() != s1 || b.Get() != s2) { if (rp->err.empty()) rp->err = fmt("first-initialisation-lost|string slots: got '%s' / '%s', initialised '%s' / '%s'", a.Get().c_str(), b.Get().c_str(), s1.c_str(), s2.c_str()); return; }
+    a.Initialize(std::string("zzz")); { std::string mv = "yyy"; b.Initialize(std::move(mv)); } if (a.Get() != s1 || b.Get() != s2) { if (rp->err.empty()) rp->err = "second-initialisation-overrides|string slot: Initialize(T&&) replaced an initialised value without Clear()"; return; }
     a.Get() += "x"; TL3 c{std::string("other")}; if (c.Get() != s1 + "x") { if (rp->err.empty()) rp->err = "write-not-visible-in-same-thread|string slot"; return; }
     rp->addr[3] = &a.Get(); rp->addr[4] = &b.Get(); if (tid % 2) a.Clear(); }
   { TL5 v{std::vector<uint64_t>{uniq(round, tid, 5, 1)}}; boundary(tid, r, yields); if (v.Get().size() != 1 || v.Get()[0] != uniq(round, tid, 5, 1)) { if (rp->err.empty()) rp->err = "first-initialisation-lost|vector slot"; return; } v.Get().push_back(1); rp->addr[5] = &v.Get(); }
@@ -164,11 +169,24 @@ static uint64_t value_work(int tid, Rng& r, bool yields) {
   d = hash_combine(d, nop::SipHash::Compute(nop::BlockReader<uint8_t>(buf, sizeof buf), r.next(), (uint64_t)tid));
   return d;
 }
+// FdWriter / FdReader on the thread's own descriptors (memfd): many single-byte and block transfers
+static uint64_t fd_work(int tid, Rng& r, bool yields) {
+  uint64_t d = 0; int fd = memfd_create("vfmt", 0); if (fd < 0) return 0;
+  { nop::FdWriter w(::dup(fd)); size_t n = 20 + r.below(200); for (size_t i = 0; i < n; i++) { (void)w.Write((uint8_t)(i * 7 + (size_t)tid)); if (i % 64 == 0) boundary(tid, r, yields); }
+    uint32_t blk[8]; for (auto& x : blk) x = (uint32_t)r.next(); (void)w.Write(blk, blk + 8); d = hash_combine(d, n); }
+  ::lseek(fd, 0, SEEK_SET);
+  { nop::FdReader rd(::dup(fd)); uint8_t b = 0; uint64_t h = 0; while (rd.Read(&b)) { h = hash_combine(h, b); } d = hash_combine(d, h); }
+  ::close(fd);
+  return d;
+}
+// process-wide state the library must not touch behind the caller's back: the SIGPIPE disposition installed by the application
+static void vf_sigpipe_handler(int) {}
+static bool sigpipe_disposition_intact() { struct sigaction cur; if (sigaction(SIGPIPE, nullptr, &cur) != 0) return true; return cur.sa_handler == &vf_sigpipe_handler; }
 static uint64_t thread_work(int round, int tid, uint64_t seed, bool yields, TlReport* rp, bool with_tl) {
   Rng r(hash_combine(seed, (uint64_t)round * 1009 + (uint64_t)tid));
   uint64_t d = 0;
   for (int step = 0; step < 6; step++) {
-    switch (r.below(4)) { case 0: d = hash_combine(d, codec_work(tid, r, yields)); break; case 1: d = hash_combine(d, primitive_work(tid, r, yields)); break; case 2: d = hash_combine(d, value_work(tid, r, yields)); break; default: d = hash_combine(d, rpc_work(r)); boundary(tid, r, yields); break; }
+    switch (r.below(5)) { case 0: d = hash_combine(d, codec_work(tid, r, yields)); break; case 1: d = hash_combine(d, primitive_work(tid, r, yields)); break; case 2: d = hash_combine(d, value_work(tid, r, yields)); break; case 3: d = hash_combine(d, fd_work(tid, r, yields)); break; default: d = hash_combine(d, rpc_work(r)); boundary(tid, r, yields); break; }
   }
   if (with_tl) tl_work(round, tid, r, yields, rp);
   return d;
@@ -178,6 +196,7 @@ int vf::engine_main() {
   const Args& a = args(); bool th = a.thorough();
   if (a.prop != "C19") { fprintf(stderr, "mt engine: unknown property %s\n", a.prop.c_str()); return 2; }
   set_watchdog(300);
+  { struct sigaction sa; sigemptyset(&sa.sa_mask); sa.sa_handler = &vf_sigpipe_handler; sa.sa_flags = SA_RESTART; sigaction(SIGPIPE, &sa, nullptr); }   // the "application's" handler
   auto& reg = registry(); std::sort(reg.begin(), reg.end(), [](const TypeOps& x, const TypeOps& y) { return strcmp(x.name, y.name) < 0; });
   for (auto& t : reg) g_types.push_back(TypeCtx{&t, t.schema()});
   int rounds = th ? 4000 : 240; rounds = rounds / a.nworkers + 1;
@@ -201,6 +220,9 @@ int vf::engine_main() {
     uint32_t nt = g_ticket.load(); uint64_t sig = 0; for (uint32_t i = 0; i < nt && i < 4096; i++) sig = hash_combine(sig, g_order[i].load(std::memory_order_relaxed)); signatures.insert(sig);
     // ---- the same work, one thread at a time (fresh threads so that ThreadLocal starts empty, as in the parallel run)
     for (int i = 0; i < N; i++) { std::thread t([&, i] { seq[i] = thread_work(round, i, seed, false, &tl_seq[i], true); }); t.join(); }
+    if (!sigpipe_disposition_intact()) { rep().violation("C19:process-signal-disposition-changed", fmt("after a round of %d threads using their own readers/writers the process-wide SIGPIPE disposition is no longer the handler the application installed", N), cd);
+      struct sigaction sa; sigemptyset(&sa.sa_mask); sa.sa_handler = &vf_sigpipe_handler; sa.sa_flags = SA_RESTART; sigaction(SIGPIPE, &sa, nullptr); }
+    rep().count("c19_signal_disposition_audits");
     rep().count("c19_rounds"); rep().count("c19_threads_run", (uint64_t)N * 2); rep().count("c19_operation_boundaries", nt);
     rep().note(hash_combine(sig, (uint64_t)round * 131 + (uint64_t)a.worker), N >= 2);
     for (int i = 0; i < N; i++) {
